@@ -61,33 +61,33 @@ SceneOK(s) == BodyOK(s.body) /\ PoseOK(s.pose)
 \* evaluate the function once instead of at every application)
 ObsRes(s, b, o) == LET xl == Local(s.pose, o.o)
                        c == Classify(b, xl)
-                   IN [t |-> o.t, c |-> c, surf |-> SurfaceC(b, xl, c),
+                   IN [t |-> o.t, c |-> c, surf |-> SurfaceC(b, xl, c), xl |-> xl,
                        bad |-> IF s.kind = "field" THEN FieldBad(s, b, o, c) ELSE AttrBad(s, b, o, c)]
-SceneRes(i) == LET s == Trace[i] IN
-               IF ~SceneOK(s) THEN <<>>
+SceneRes(s) == IF ~SceneOK(s) THEN <<>>
                ELSE LET b == Prep(s.body) IN [k \in 1..Len(s.obs) |-> ObsRes(s, b, s.obs[k])] \o <<>>
 \* rejected observations of scene i: <<tid, clause, property, context>>, and the cells it reached (for the coverage
 \* figure only): class, pose, point class, stratum, in_out, kappa decade (100 = identity)
-SceneOut(i) ==
-  LET s == Trace[i] IN
+SceneOut(s) ==
   IF ~SceneOK(s) THEN [bad |-> {<<s.obs[1].t, "premise-body", "MACHINERY", <<s.body.cls>>>>}, cells |-> {}]
-  ELSE LET r == SceneRes(i)
+  ELSE LET r == SceneRes(s)
+           b == Prep(s.body)
            kd == IF s.kind = "field" THEN (IF s.kap.id THEN 100 ELSE s.kap.dec) ELSE 0 IN
        [bad |-> UNION {{<<r[k].t, v[1], v[2],
-                          IF s.kind = "field" THEN <<s.body.cls, r[k].c, r[k].surf, s.inout, s.batch, s.iface, kd, v[3]>>
+                          IF s.kind = "field" THEN <<s.body.cls, r[k].c, Locus(b, r[k].xl, r[k].c), s.inout, s.batch, s.iface, kd, v[3]>>
                           ELSE <<s.body.cls, r[k].c, s.via, s.attr, s.dec, v[3]>>>> : v \in r[k].bad}
                        : k \in {j \in 1..Len(r) : r[j].bad # {}}},
         cells |-> IF s.kind # "field" THEN {} ELSE {<<s.body.cls, s.ri, r[k].c, r[k].surf, s.inout, kd>> : k \in 1..Len(r)}]
 
-RECURSIVE CountRange(_, _)
-CountRange(lo, hi) == IF lo > hi THEN 0 ELSE IF lo = hi THEN Len(Trace[lo].obs)
-                      ELSE LET mid == (lo + hi) \div 2 IN CountRange(lo, mid) + CountRange(mid + 1, hi)
-\* one LET so that every scene is evaluated exactly once
-ASSUME LET out == [i \in 1..Len(Trace) |-> SceneOut(i)] \o <<>>
-           bad == UNION {out[i].bad : i \in 1..Len(Trace)}
-       IN /\ PrintT(<<"validated", CountRange(1, Len(Trace)), "rejected", Cardinality(bad)>>)
+\* one LET so that the trace is read once and every scene is evaluated exactly once
+ASSUME LET tr == Trace
+           out == [i \in 1..Len(tr) |-> SceneOut(tr[i])] \o <<>>
+           nobs == [i \in 1..Len(tr) |-> Len(tr[i].obs)]
+           RECURSIVE Sum(_, _)
+           Sum(lo, hi) == IF lo > hi THEN 0 ELSE IF lo = hi THEN nobs[lo] ELSE LET mid == (lo + hi) \div 2 IN Sum(lo, mid) + Sum(mid + 1, hi)
+           bad == UNION {out[i].bad : i \in 1..Len(tr)}
+       IN /\ PrintT(<<"validated", Sum(1, Len(tr)), "rejected", Cardinality(bad)>>)
           /\ \A r \in bad : PrintT(<<"REJECT", r[1], r[2], r[3], r[4]>>)
-          /\ PrintT(<<"INFO", "cells", UNION {out[i].cells : i \in 1..Len(Trace)}>>)
+          /\ PrintT(<<"INFO", "cells", UNION {out[i].cells : i \in 1..Len(tr)}>>)
 Init == x = 0
 Next == x' = x
 =============================================================================
